@@ -130,6 +130,21 @@ def populate(b):
     reg.insertDimensionData("skymap", {"name": "S", "hash": b"\x01" * 20, "tract_max": 10, "patch_nx_max": 2, "patch_ny_max": 2})
     for t in range(6):
         reg.insertDimensionData("tract", {"skymap": "S", "id": t, "region": box(t * 7.0, t * 7.0 + 6.0, 1.0, 3.0)})
+    # a second sky map for any(): each of three visits is ringed by many tracts that share its common-skypix cells without
+    # touching it (near misses) and overlapped by exactly one
+    reg.insertDimensionData("skymap", {"name": "N", "hash": b"\x02" * 20, "tract_max": 100, "patch_nx_max": 2, "patch_ny_max": 2})
+    tid = 0
+    for j, v in enumerate((20, 21, 22)):
+        lon = 100.0 + 10.0 * j
+        reg.insertDimensionData("visit", {"instrument": "I", "id": v, "name": f"v{v}", "physical_filter": "f1", "day_obs": 20240101, "exposure_time": 1.0,
+                                          "science_program": "near", "region": box(lon, lon + 1.0, 10.0, 11.0)})
+        for k in range(14):
+            # thin slivers just outside the right and the upper edge
+            reg.insertDimensionData("tract", {"skymap": "N", "id": tid, "region": box(lon + 1.01 + 0.005 * k, lon + 1.012 + 0.005 * k, 10.0, 11.0) if k % 2
+                                              else box(lon, lon + 1.0, 11.01 + 0.005 * k, 11.012 + 0.005 * k)})
+            tid += 1
+        reg.insertDimensionData("tract", {"skymap": "N", "id": tid, "region": box(lon + 0.4, lon + 0.6, 10.4, 10.6)})
+        tid += 1
 
 
 def integration(ctx, tmp):
@@ -204,6 +219,75 @@ def integration(ctx, tmp):
                     return False
                 break
         return True
+
+    # ---- any() on a spatial join in which near misses outnumber the real overlaps: it must agree with iteration for every batch size
+    for v in (20, 21, 22):
+        for factor in (1, 2, 3, 10):
+            with b.query() as q:
+                q._driver._postprocessing_filter_factor = factor
+                r = q.data_ids(["visit", "tract"]).where({"instrument": "I", "skymap": "N", "visit": v})
+                rows = list(r)
+                got_any = r.any(execute=True, exact=True)
+                cnt = r.count(exact=True, discard=True)
+                loose = r.count(exact=False)
+            ctx.evaluations += 1
+            ctx.count("any-near-misses")
+            if len(rows) != 1 or got_any is not True or cnt != 1 or loose < 1:
+                viol(f"visit {v} x tract (sky map N, 14 near misses, 1 overlap), filter batch {factor}: iteration gives {len(rows)} rows, any()={got_any}, "
+                     f"count(exact)={cnt}, count(inexact)={loose}", f"any-near:{v}:{factor}", {"kind": "any", "visit": v, "factor": factor})
+            if loose > 1:
+                ctx.nontrivial.add(("any-near", v, factor))
+
+    # ---- dimension-record and dataset results: the same rows as the data-ID results, for every raw page size, also page by page
+    for element, data_id, where, orders in [("visit", {"instrument": "I"}, None, [None, ["visit"], ["-visit.exposure_time", "visit"]]),
+                                            ("tract", {"skymap": "S"}, None, [None, ["-tract"]]),
+                                            ("detector", {"instrument": "I"}, "detector > 1", [None, ["detector"]])]:
+        with b.query() as q:
+            want_ids = sorted(d[element] for d in q.data_ids([element]).where(data_id, where or ""))
+        for order in orders:
+            for page in ([1, 2, 3, 5, 50] if ctx.quick() else [1, 2, 3, 4, 5, 7, 11, 50]):
+                for limit in (None, 0, 1, len(want_ids) - 1, len(want_ids), len(want_ids) + 3):
+                    with b.query() as q:
+                        q._driver._raw_page_size = page
+                        r = q.dimension_records(element).where(data_id, where or "")
+                        if order:
+                            r = r.order_by(*order)
+                        if limit is not None:
+                            r = r.limit(limit)
+                        recs = list(r)
+                        raised = []
+                        try:
+                            paged = [rec for pg in r.iter_set_pages() for rec in pg]
+                        except Exception as e:
+                            paged, _ = [], raised.append(f"iter_set_pages raised {type(e).__name__}: {str(e)[:60]}")
+                        try:
+                            tabled = [rec for pg in r.iter_table_pages() for rec in pg]
+                        except Exception as e:
+                            tabled, _ = [], raised.append(f"iter_table_pages raised {type(e).__name__}: {str(e)[:60]}")
+                        cnt = r.count(exact=True, discard=True)
+                    ctx.evaluations += 1
+                    ctx.count("record-queries")
+                    ids = [rec.id for rec in recs]
+                    want_len = len(want_ids) if limit is None else min(limit, len(want_ids))
+                    if want_len >= 2 and page < want_len:
+                        ctx.nontrivial.add(("records", element, tuple(order or ()), limit, page))
+                    problems = list(raised)
+                    if len(set(ids)) != len(ids):
+                        problems.append(f"records {sorted(i for i in set(ids) if ids.count(i) > 1)} are returned more than once")
+                    if len(ids) != want_len or not set(ids) <= set(want_ids):
+                        problems.append(f"{len(ids)} records ({sorted(set(ids) - set(want_ids))} not in the result), expected {want_len}")
+                    if sorted(x.id for x in paged) != sorted(ids) or sorted(x.id for x in tabled) != sorted(ids):
+                        problems.append(f"iter_set_pages gives {len(paged)} and iter_table_pages {len(tabled)} records, iteration {len(ids)}")
+                    if cnt != len(ids):
+                        problems.append(f"count(exact) = {cnt}, iteration gives {len(ids)}")
+                    if order == ["visit"] or order == ["detector"]:
+                        if ids != sorted(ids):
+                            problems.append("not sorted")
+                    if order == ["-tract"] and ids != sorted(ids, reverse=True):
+                        problems.append("not sorted")
+                    if problems:
+                        viol(f"[records of {element} where={where} order_by={order} limit={limit} raw_page_size={page}] " + "; ".join(problems[:3]),
+                             f"records:{element}:{order}:{limit}:{page}", {"kind": "records", "element": element, "order_by": order, "limit": limit, "raw_page_size": page})
 
     n_variants = 0
     for name, dims, data_id, where, orders in QUERIES:
@@ -314,11 +398,25 @@ def integration(ctx, tmp):
         if not (a == k == w == bd) or len(a) != 3:
             viol(f"visit={v}: data-ID / kwargs / where / bind spellings return {len(a)}/{len(k)}/{len(w)}/{len(bd)} rows", f"spellings:{v}",
                  {"kind": "spellings", "visit": v})
-    # negative limit through the convenience wrapper = warn and cap
-    rows = b.query_data_ids(["visit"], instrument="I", limit=-3, explain=False)
-    ctx.evaluations += 1
-    if len(rows) != 3:
-        viol(f"query_data_ids(limit=-3) returned {len(rows)} rows, documented: at most 3 (with a warning)", "neg-limit", {"kind": "neg-limit"})
+    # negative limit through the convenience wrappers = warn and cap: min(|limit|, n) rows, for limits around the number of matches
+    n_det = 3
+    wrappers = {
+        "query_data_ids": (lambda lim: b.query_data_ids(["detector"], instrument="I", limit=lim, explain=False), n_det),
+        "query_dimension_records": (lambda lim: b.query_dimension_records("detector", instrument="I", limit=lim, explain=False), n_det),
+        "query_datasets": (lambda lim: b.query_datasets("c16_dt", collections=["ra"], limit=lim, explain=False), 3),
+        "query_datasets(find_first over 3 runs)": (lambda lim: b.query_datasets("c16_dt", collections=["rc", "rb", "ra"], limit=lim, explain=False), 3),
+    }
+    for wname, (fn, n) in wrappers.items():
+        for lim in (-1, -(n - 1), -n, -(n + 1), -(n + 5), n - 1, n, n + 1, 0, None):
+            ctx.evaluations += 1
+            ctx.count("wrapper-limits")
+            try:
+                got = len(fn(lim))
+            except Exception as e:
+                got = f"{type(e).__name__}: {str(e)[:60]}"
+            want = n if lim is None else min(abs(lim), n)
+            if got != want:
+                viol(f"{wname}(limit={lim}) over {n} matches returned {got}, documented: {want}", f"wrapper-limit:{wname}:{lim}", {"kind": "neg-limit", "wrapper": wname, "limit": lim})
 
 
 def replay(ctx, content):
